@@ -9,6 +9,8 @@ package scope
 import (
 	"fmt"
 	"net"
+	"net/url"
+	"strings"
 	"testing"
 	"time"
 
@@ -59,6 +61,17 @@ func genCase(t *rapid.T) Case {
 			return fmt.Sprintf("203.0.113.%d", rapid.IntRange(2, 254).Draw(t, l+"d"))
 		}
 		c.IP, c.Local = v("remote"), v("local")
+		return c
+	}
+	if rapid.IntRange(0, 6).Draw(t, "ws") == 0 {
+		// a WebSocket client, as accepted by the forwarder's WebSocket listener: loopback,
+		// 203.0.113.x, or an IPv6 link-local address (whose textual form carries a zone), all
+		// inside the private network namespace
+		c.Proto = "ws-accept-ns"
+		pair := rapid.SampledFrom([][2]string{{"127.0.0.1", "127.0.0.1"}, {"127.3.2.1", "127.0.0.1"}, {"203.0.113.7", "203.0.113.9"},
+			{"203.0.113.7", "127.0.0.1"}, {"127.0.0.1", "203.0.113.9"}, {"::1", "::1"}, {"fe80::7%lo", "fe80::9%lo"}, {"fe80::9%lo", "fe80::7%lo"},
+			{"fe80::7%lo", "fe80::7%lo"}}).Draw(t, "wspair")
+		c.IP, c.Local = pair[0], pair[1]
 		return c
 	}
 	if c.Proto == "tcp-accept" {
@@ -149,7 +162,11 @@ func exec(c Case) (res evid.Result) {
 		}
 	}()
 	setup()
-	ip := net.ParseIP(c.IP)
+	ipText, zone := c.IP, ""
+	if i := strings.IndexByte(c.IP, '%'); i >= 0 {
+		ipText, zone = c.IP[:i], c.IP[i+1:]
+	}
+	ip := net.ParseIP(ipText)
 	if ip == nil {
 		res.Classes = append(res.Classes, "harness-unparsable-address")
 		return res
@@ -177,6 +194,30 @@ func exec(c Case) (res evid.Result) {
 		if ls := face.MakeNDNLPLinkService(tr, face.MakeNDNLPLinkServiceOptions()); ls.Scope() != got {
 			res.Err = fmt.Errorf("link service reports scope %v, its transport %v (remote %s)", ls.Scope(), got, uri)
 			return res
+		}
+	case "ws-accept-ns":
+		if zone != "" {
+			if err := nsLinkLocal(); err != nil {
+				res.Classes = append(res.Classes, "private-network-namespace-not-available")
+				return res
+			}
+		}
+		ltext, lzone := c.Local, ""
+		if i := strings.IndexByte(c.Local, '%'); i >= 0 {
+			ltext, lzone = c.Local[:i], c.Local[i+1:]
+		}
+		conn, done, err := wsAccept(&net.TCPAddr{IP: net.ParseIP(ltext), Zone: lzone}, &net.TCPAddr{IP: ip, Zone: zone}, true)
+		if err != nil {
+			res.Classes = append(res.Classes, "ws-accept-ns-not-available")
+			res.Counts = map[string]int{"ws-accept-ns-not-available: " + err.Error(): 1}
+			return res
+		}
+		defer done()
+		tr := face.NewWebSocketTransport(defn.MakeWebSocketServerFaceURI(&url.URL{Scheme: "ws", Host: "127.0.0.1:9696"}), conn)
+		got = tr.Scope()
+		uri = tr.RemoteURI()
+		if zone != "" {
+			res.Classes = append(res.Classes, "peer-address-with-zone")
 		}
 	case "tcp-accept-ns":
 		var conn net.Conn
@@ -234,7 +275,7 @@ func exec(c Case) (res evid.Result) {
 		res.Classes = append(res.Classes, c.Proto, "peer-address-unspecified-not-judged")
 		return res
 	}
-	if want == defn.NonLocal && c.Proto != "tcp-accept-ns" {
+	if want == defn.NonLocal && c.Proto != "tcp-accept-ns" && c.Proto != "ws-accept-ns" {
 		for _, own := range ownAddrs() {
 			if net.ParseIP(own).Equal(ip) {
 				// an address of this very host that is not a loopback address: either classification keeps /localhost on the machine
@@ -254,7 +295,7 @@ func exec(c Case) (res evid.Result) {
 	return res
 }
 
-const rule = "remote addresses (IPv4/IPv6: loopback 127/8 and ::1, IPv4-mapped forms, look-alikes such as 128.0.0.1, ::2, ::ffff:10.0.0.1, private/link-local/documentation/multicast/this host's own global address, random) x {tcp, udp}: the unicast transport constructed for that remote (no packet is sent; UDP sockets that the sandbox cannot open are skipped and counted), and tcp-accept: a real connection accepted from a peer bound to 127.a.b.c, ::1 or one of this host's other addresses, handed to AcceptUnicastTCPTransport; and tcp-accept-ns: the same between 127.a.b.c and 203.0.113.x addresses inside a private network namespace of the test process, where 203.0.113.x peers are neither loopback nor addresses of an interface, i.e. look like another host (local and remote address drawn independently); must be classified local iff the remote address is a loopback address by the harness's own RFC rule, and the link service must report its transport's scope. Non-trivial: a transport was constructed; distinct by (proto, address, port)"
+const rule = "remote addresses (IPv4/IPv6: loopback 127/8 and ::1, IPv4-mapped forms, look-alikes such as 128.0.0.1, ::2, ::ffff:10.0.0.1, private/link-local/documentation/multicast/this host's own global address, random) x {tcp, udp}: the unicast transport constructed for that remote (no packet is sent; UDP sockets that the sandbox cannot open are skipped and counted), and tcp-accept: a real connection accepted from a peer bound to 127.a.b.c, ::1 or one of this host's other addresses, handed to AcceptUnicastTCPTransport; and tcp-accept-ns: the same between 127.a.b.c and 203.0.113.x addresses inside a private network namespace of the test process, where 203.0.113.x peers are neither loopback nor addresses of an interface, i.e. look like another host (local and remote address drawn independently); and ws-accept-ns: a real WebSocket handshake inside that namespace from loopback, 203.0.113.x and zoned IPv6 link-local (fe80::7%lo) clients, the server side handed to NewWebSocketTransport; must be classified local iff the remote address is a loopback address by the harness's own RFC rule, and the link service must report its transport's scope. Non-trivial: a transport was constructed; distinct by (proto, address, port)"
 
 func TestC09TransportScope(t *testing.T) {
 	rec := evid.New("C09", "TestC09TransportScope", rule)
